@@ -9,6 +9,7 @@ mod der;
 mod prefixlaws;
 mod reschain;
 mod rfc1982;
+mod rtrconn;
 mod rtrsession;
 mod slurm;
 mod urialg;
@@ -33,6 +34,8 @@ fn main() {
         ("replay", "slurm") => slurm::replay(rest),
         ("replay", "rtrsession") => rtrsession::replay(rest),
         ("drive", "rtrsession") => rtrsession::drive(rest),
+        ("replay", "rtrconn") => rtrconn::replay(rest),
+        ("drive", "rtrconn") => rtrconn::drive(rest),
         ("replay", "x509time") => x509time::replay(rest),
         ("native", "x509time") => x509time::native(rest),
         ("drive", "x509time") => x509time::drive(rest),
